@@ -885,6 +885,9 @@ class Interp:
                 return Opaque('dataarray.' + attr)
             return LibFn('dataarray.' + attr, bound=v)
         if isinstance(v, NDArr):
+            if attr == 'data' and getattr(v, 'plain', False):
+                # a NumPy scalar or ndarray that certainly is not an xarray object (e.g. loaded from a file): .data is a view of its MEMORY
+                return Opaque('memoryview of a plain NumPy value')
             if attr in ('data', 'values'):
                 return v                    # (xarray .loc[...] views evaluate to plain arrays here: .data is the array itself)
             if attr in ('real', 'imag', 'T', 'flat'):
